@@ -6,6 +6,7 @@
 -/
 import QV.Proofs.ScanOpt
 import QV.Proofs.WriterView
+import QV.Spec.ServerTsig
 
 /-! ### the request handler's control flow, cut into named pieces
 
@@ -98,7 +99,11 @@ structure TsigFacts : Prop where
     len ≤ 65535 →
     if Spec.Server.tsigRdataOk msg cur (cur + len) then
       ∃ rd, Server.rdRead c 250 msg cur len = .ok rd ∧
-        ∃ p, parseUncompressed rd.toArray false = .ok p ∧ p.len + 10 ≤ rd.length
+        ∃ p, parseUncompressed rd.toArray false = .ok p ∧ p.len + 10 ≤ rd.length ∧
+          -- the RDATA is the slice of the message, and its length fields add up (RFC 8945 §4.2)
+          rd = (msg.extract cur (cur + len)).toList ∧
+          p.len + be16 (msg.extract cur (cur + len)) (p.len + 8) +
+            be16 (msg.extract cur (cur + len)) (p.len + be16 (msg.extract cur (cur + len)) (p.len + 8) + 14) + 16 = len
     else ∃ e, Server.rdRead c 250 msg cur len = .err e
 
 /-! ### writer states reached by the scan -/
@@ -166,8 +171,23 @@ def tsigCont (out : Out WriterErr (Option Reader) × State) (e : Bool) : Out Wri
   | (.err x, s') => (.err x, s')
   | (.panic, s') => (.panic, s')
 
+/-- the RDATA octets of the record delimited by `d` -/
+def tsigRd (req : Bytes) (d : Spec.Server.Delim) : List UInt8 := (req.extract (d.ownerEnd + 10) d.next).toList
+
+/-- **the TSIG record the scan reached, as the model reads it**: `mw` is the request up to the
+    record, `r'` the reader after it, and `t` is `ReadTsigRr::try_from` of the record at `d`: the
+    decoded owner and the algorithm name in lower case, the MAC size field, the RDATA slice -/
+def TsigView (req : Bytes) (d : Spec.Server.Delim) (t : Tsig.ReadTsigRr) (mw : Bytes) (r' : Reader) : Prop :=
+  mw = req.extract 0 d.pos ∧ r'.cursor = d.next ∧
+  ∃ owner nl fl p, Spec.specDecodeName req d.pos = some (owner, nl, fl) ∧
+    parseUncompressed (tsigRd req d).toArray false = .ok p ∧ p.len + 10 ≤ (tsigRd req d).length ∧
+    p.len + be16 (req.extract (d.ownerEnd + 10) d.next) (p.len + 8) +
+      be16 (req.extract (d.ownerEnd + 10) d.next)
+        (p.len + be16 (req.extract (d.ownerEnd + 10) d.next) (p.len + 8) + 14) + 16 = d.rdlen ∧
+    t = ⟨Tsig.lowerName owner, Tsig.lowerName p.wire, (Tsig.rd16 (tsigRd req d) (p.len + 8)).toNat, tsigRd req d⟩
+
 /-- what the model's additional-section scan must return for each outcome of the spec's scan -/
-def ArPost (cfg : Server.Cfg) (tr : Server.Transport) (now : Nat) (req : Bytes) (s1 : State) (r : Reader)
+def ArPost (cfg : Server.Cfg) (tr : Server.Transport) (now : Nat) (req : Bytes) (s1 : State) (r : Reader) (n : Nat)
     (res : Spec.Server.ArEnd × Bool × Nat) (out : Out WriterErr (Option Server.ScanSt) × State) : Prop :=
   match res with
   | (.done pos, e', l') =>
@@ -176,8 +196,31 @@ def ArPost (cfg : Server.Cfg) (tr : Server.Transport) (now : Nat) (req : Bytes) 
   | (.badVers, e', l') => out = (.ok none, stXRcode 16 ⟨cfg.payload, 0⟩ (arSt s1 tr cfg.payload e' l'))
   | (.tsig, e', l') => ∃ (t : Tsig.ReadTsigRr) (mw : Bytes) (r' : Reader),
       r'.octets = req ∧ r'.cursor ≤ req.size ∧ r'.mark = r.mark ∧
-      out = tsigCont (Server.tsigAfter cfg now t mw r' (arSt s1 tr cfg.payload e' l')) e'
+      out = tsigCont (Server.tsigAfter cfg now t mw r' (arSt s1 tr cfg.payload e' l')) e' ∧
+      ∃ d, Spec.ServerTsig.walk req n r.cursor = some d ∧ TsigView req d t mw r'
 
+
+/-- one record further from the end: the scan's post-condition at the next record is the
+    post-condition at this one -/
+theorem arPost_shift {cfg : Server.Cfg} {tr : Server.Transport} {now : Nat} {s1 : State} {r : Reader}
+    {d : Spec.Server.Delim} {n : Nat} {res : Spec.Server.ArEnd × Bool × Nat}
+    {out : Out WriterErr (Option Server.ScanSt) × State}
+    (hd : Spec.Server.specDelimit r.octets r.cursor = some d)
+    (h : ArPost cfg tr now r.octets s1 { r with cursor := d.next } n res out) :
+    ArPost cfg tr now r.octets s1 r (n + 1) res out := by
+  obtain ⟨en, e', l'⟩ := res
+  cases en with
+  | done pos => exact h
+  | formErr => exact h
+  | badVers => exact h
+  | tsig =>
+    simp only [ArPost] at h ⊢
+    obtain ⟨t, mw, r', h1, h2, h3, h4, dT, hw, hview⟩ := h
+    refine ⟨t, mw, r', h1, h2, h3, h4, dT, ?_, hview⟩
+    simp only [Spec.ServerTsig.walk, hd]
+    by_cases hn : n = 0
+    · subst hn; simp [Spec.ServerTsig.walk] at hw
+    · rw [if_neg hn]; exact hw
 
 /-! ### `PeekRr::parse` against the spec -/
 
@@ -218,7 +261,8 @@ theorem handleTsig_spec (cfg : Server.Cfg) (now : Nat) (r : Reader) (hi : Inv r)
         Spec.Server.tsigRdataOk r.octets (d.ownerEnd + 10) d.next = true ∧ d.cls = 255 ∧ d.rawTtl = 0 then
       ∃ (t : Tsig.ReadTsigRr) (mw : Bytes),
         Server.handleTsig cfg now ⟨r, d.ownerEnd, d.next⟩ d.rawTtl S =
-          Server.tsigAfter cfg now t mw { r with cursor := d.next } S
+          Server.tsigAfter cfg now t mw { r with cursor := d.next } S ∧
+        TsigView r.octets d t mw { r with cursor := d.next }
     else Server.handleTsig cfg now ⟨r, d.ownerEnd, d.next⟩ d.rawTtl S = (.ok none, stRcode 1 S) := by
   have hps := parse_spec r d hpos hnx hsz hty hcl httl hrl
   have hrdl : d.rdlen ≤ 65535 := by
@@ -247,7 +291,7 @@ theorem handleTsig_spec (cfg : Server.Cfg) (now : Nat) (r : Reader) (hi : Inv r)
     simp only [Option.isSome_some, true_and]
     by_cases hok : Spec.Server.tsigRdataOk r.octets (d.ownerEnd + 10) d.next = true
     · simp only [hok, if_true] at hro
-      obtain ⟨rd, hrd, p, hpu, hlen⟩ := hro
+      obtain ⟨rd, hrd, p, hpu, hlen, hslice, hlay⟩ := hro
       rw [hrd] at hps
       simp only [hps, hok, true_and]
       by_cases hraw : d.rawTtl = 0
@@ -259,7 +303,13 @@ theorem handleTsig_spec (cfg : Server.Cfg) (now : Nat) (r : Reader) (hi : Inv r)
         simp only [c1, c2, c3, ne_eq, not_true_eq_false, if_false, or_false]
         by_cases hc : d.cls = 255
         · simp only [hc, not_true_eq_false, if_false, if_true, hpu, show ¬ rd.length < p.len + 10 by omega]
-          exact ⟨_, _, rfl⟩
+          refine ⟨_, _, rfl, hpos ▸ rfl, rfl, owner, nl, fl, p, hpos ▸ hdn, ?_, ?_, ?_, ?_⟩
+          · show parseUncompressed (r.octets.extract (d.ownerEnd + 10) d.next).toList.toArray false = _
+            rw [← hslice]; exact hpu
+          · show p.len + 10 ≤ (r.octets.extract (d.ownerEnd + 10) d.next).toList.length
+            rw [← hslice]; exact hlen
+          · exact hlay
+          · simp only [tsigRd, ← hslice]
         · simp only [hc, not_false_eq_true, if_true, if_false]
           exact do_formErr _ h3
       · simp only [hraw, ne_eq, not_false_eq_true, if_true, and_false, if_false]
@@ -276,7 +326,7 @@ theorem scanAr_spec (cfg : Server.Cfg) (tr : Server.Transport) (now : Nat) (req 
     (s1 : State) (hb : Base s1 tr cfg.payload) (hreq : req.size ≤ Rdata.USIZE_MAX) (htf : TsigFacts) :
     ∀ (n index : Nat) (r : Reader) (e : Bool) (lim : Nat),
       index + n = arcount → Inv r → r.octets = req → (e = false → lim = 512) →
-      ArPost cfg tr now req s1 r
+      ArPost cfg tr now req s1 r n
         (Spec.Server.scanAr req cfg.payload n arcount r.cursor e lim)
         (Server.scanAr cfg tr now arcount n index ⟨r, e⟩ (arSt s1 tr cfg.payload e lim)) := by
   intro n
@@ -379,7 +429,7 @@ theorem scanAr_spec (cfg : Server.Cfg) (tr : Server.Transport) (now : Nat) (req 
                 · -- a good OPT: the scan goes on
                   simp only [ne_eq, not_true_eq_false, if_false, hver]
                   rw [hlimK]
-                  exact ih (index + 1) { r with cursor := d.next } true _ (by omega) hi' rfl (by intro h; cases h)
+                  exact arPost_shift hd (ih (index + 1) { r with cursor := d.next } true _ (by omega) hi' rfl (by intro h; cases h))
                 · simp only [ne_eq, not_true_eq_false, if_false, hver, not_false_eq_true, if_true, ArPost]
                   rw [hlimK, XRC_BADVERS]
                   exact do_xrcode 16 _ _ hSe (by omega) hS3
@@ -406,19 +456,20 @@ theorem scanAr_spec (cfg : Server.Cfg) (tr : Server.Transport) (now : Nat) (req 
             by_cases hall : (Spec.specDecodeName r.octets r.cursor).isSome ∧
                 Spec.Server.tsigRdataOk r.octets (d.ownerEnd + 10) d.next = true ∧ d.cls = 255 ∧ d.rawTtl = 0
             · rw [if_pos hall] at hts
-              obtain ⟨t, mw, hpt⟩ := hts
+              obtain ⟨t, mw, hpt, hview⟩ := hts
               obtain ⟨h1, h2, h4, h5⟩ := hall
               obtain ⟨v, hv⟩ := Option.isSome_iff_exists.mp h1
               rw [hpt]
               simp only [hv, h2, Bool.not_true, Bool.false_eq_true, if_false, h4, h5, not_true_eq_false, or_self,
                 ArPost]
-              refine ⟨t, mw, { r with cursor := d.next }, rfl, hsz, rfl, ?_⟩
-              generalize Server.tsigAfter cfg now t mw { r with cursor := d.next }
-                (arSt s1 tr cfg.payload e lim) = X
-              rcases X with ⟨(_ | _ | _), s'⟩
-              · rename_i a; cases a <;> rfl
-              · rfl
-              · rfl
+              refine ⟨t, mw, { r with cursor := d.next }, rfl, hsz, rfl, ?_, d, ?_, hview⟩
+              · generalize Server.tsigAfter cfg now t mw { r with cursor := d.next }
+                  (arSt s1 tr cfg.payload e lim) = X
+                rcases X with ⟨(_ | _ | _), s'⟩
+                · rename_i a; cases a <;> rfl
+                · rfl
+                · rfl
+              · simp [Spec.ServerTsig.walk, hd]
             · rw [if_neg hall] at hts
               rw [hts]
               simp only [ArPost]
@@ -443,7 +494,7 @@ theorem scanAr_spec (cfg : Server.Cfg) (tr : Server.Transport) (now : Nat) (req 
             exact do_formErr _ h3
         · -- any other record is skipped
           simp only [ht250, if_false]
-          exact ih (index + 1) { r with cursor := d.next } e lim (by omega) hi' rfl hl
+          exact arPost_shift hd (ih (index + 1) { r with cursor := d.next } e lim (by omega) hi' rfl hl)
 
 
 /-! ### `handle_query` up to the catalog dispatch -/
